@@ -171,10 +171,12 @@ def instr_compare(prog, obs, impl, model):
         if mv == 0:
             continue
         if u.replace('µ', 'u') != mu:
-            # the same amount under another prefix is a difference only if the values disagree as well
+            # another prefix (e.g. the library rounds a sub-nanolitre volume to ten decimals of a litre before choosing the prefix and
+            # prints '0.0 L'): compare the amounts themselves, to the display precision of the unit the model chose
             pu, bu = split_unit(u)
             pm_, bm = split_unit(mu)
-            if bu != bm or abs(v * SI[pu][1] - mv * SI[pm_][1]) > abs(mv * SI[pm_][1]) * F(1, 100):
+            tol = F(10) ** (-PREC.get(mu, 3)) * F(51, 100) * SI[pm_][1] + abs(mv * SI[pm_][1]) * F(1, 10**6)
+            if bu != bm or abs(v * SI[pu][1] - mv * SI[pm_][1]) > tol:
                 diffs.append((i, f"instruction of op {i} states {float(v)} {u}, the model {float(mv)} {mu}"))
             continue
         prec = PREC.get(u, 3)
